@@ -1204,6 +1204,20 @@ def rule_d2(a, writes):
         if fresh:
             ck.ok(R, fi.qual, '%s: request freshly built in this function' % cons)
             continue
+        if isinstance(tgt.value, ast.Name) and tgt.value.id in fi.params and fi.cls is not None:
+            # the receiver is handed in by a method of the same class (an extracted helper): what its callers copied it from
+            pi = fi.params.index(tgt.value.id)
+            for m2 in fi.cls.methods.values():
+                for c2 in U.calls(m2.node):
+                    if not (isinstance(c2.func, ast.Attribute) and c2.func.attr == fi.name and isinstance(c2.func.value, ast.Name) and c2.func.value.id == 'self'):
+                        continue
+                    a2 = c2.args[pi - 1] if 0 <= pi - 1 < len(c2.args) else next((k.value for k in c2.keywords if k.arg == tgt.value.id), None)
+                    if not isinstance(a2, ast.Name):
+                        continue
+                    for v, kind, st in U.local_defs(m2.node).get(a2.id, []):
+                        if kind == 'assign' and isinstance(v, ast.Call) and isinstance(v.func, ast.Attribute) and v.func.attr in ('copy', 'deepcopy', '__copy__') \
+                                and U.is_self_attr(v.func.value):
+                            srcs.add(_utxt(v.func.value))
         srcs.add(rtxt)
         dom = cfg.dominators()
         # a private copy made in this function can be cleaned before or after the store
